@@ -312,3 +312,53 @@ _run_f = run
 def run(ctx, rep, tier):
     _run_f(ctx, rep, tier)
     _alphabet_and_simplifier(ctx, rep, tier)
+
+
+# ---------------------------------------------------------------------------------------------------------------- C07.j / C07.k
+def _thompson_fragments(ctx, rep, tier):
+    """C07.j (E11, nmfulint/thompson.py): every arm of the regex -> NFA construction builds a fragment whose language is the operator's, and keeps the invariants the
+    construction composes by. C07.k: the epsilon closure is a pure function of the automaton."""
+    from .. import thompson
+    model = ctx.model
+    q = "RegexMatch._convert_to_nfa"
+    rep.rule("C07.j", "each arm of the Thompson construction, executed symbolically (fresh states, sub-expressions as atomic edges, two sub-expressions per n-ary node): "
+                      "the words from the given start to the returned end are exactly the operator's (class r; M1|M2; M1 M2; eps|M1; M1*), no state is the origin of two labelled "
+                      "edges / sub-fragments (one target per symbol), the returned end has no edge of its own, every created state joins the automaton")
+    res = thompson.analyse(model, q)
+    kinds = set()
+    for cls, kind, frag, probs in res:
+        kinds.add(kind)
+        if probs:
+            for code, msg in probs:
+                rep.bad("C07.j", q, f"arm {cls} ({kind}): {code}", msg + f" [fragment: {', '.join(f'{s}-{l}->{d}' for s, l, d in frag.edges)}; returns {frag.returned}]")
+        else:
+            rep.ok("C07.j", q, f"arm {cls} ({kind}): language, one claim per state, clean end, states added [{len(frag.edges)} edges]")
+    missing = {"class", "alternation", "sequence", "optional", "star"} - kinds
+    if missing:
+        raise AnalysisError(f"C07.j: no arm of _convert_to_nfa for {sorted(missing)}")
+    # the one-target-per-symbol fact the claim clause rests on
+    tr = model.func("RegexNFState.transition")
+    rep.check(model.has("RegexNFState.transition", "if symbol == RegexNFState.Epsilon:\n    self.epsilon_moves.add(target)\nelse:\n    self.transitions[symbol] = target"), "C07.j", "RegexNFState.transition",
+              "epsilon moves accumulate in a set; a labelled transition is one target per symbol", "how an NFA state stores its moves changed: re-derive the claim clause of C07.j")
+
+    rep.rule("C07.k", "RegexNFState.epsilon_closure is a pure function of the automaton: it stores nothing on the state (the recursion cuts cycles with the caller's visited "
+                      "set, so an inner result is partial by design: cached, it is wrong for the next caller) and returns every state reachable by epsilon moves")
+    ec = model.func("RegexNFState.epsilon_closure")
+    stores = [ast.unparse(n) for n in ast.walk(ec) if isinstance(n, (ast.Assign, ast.AugAssign, ast.AnnAssign))
+              for t in (n.targets if isinstance(n, ast.Assign) else [n.target]) if isinstance(t, (ast.Attribute, ast.Subscript))]
+    reads_cache = [ast.unparse(n) for n in ast.walk(ec) if isinstance(n, ast.Return) and n.value is not None and isinstance(n.value, ast.Attribute)]
+    rep.check(not stores and not reads_cache, "C07.k", "RegexNFState.epsilon_closure", "no store to the state, no cached result returned",
+              f"epsilon_closure keeps state ({(stores + reads_cache)[:2]}): a closure computed inside another one stops at the states that one has already visited - cached, the partial set is "
+              "handed to every later caller and the subset construction loses NFA states (`(a|b)*c` style expressions stop matching)")
+    ok = model.has("RegexNFState.epsilon_closure", "total_moves = set((self,))") and \
+        model.has("RegexNFState.epsilon_closure", "for move in self.epsilon_moves:\n    total_moves.add(move)\n    if move in visited:\n        continue\n    visited.add(move)\n    total_moves |= move.epsilon_closure(visited)")
+    rep.check(ok, "C07.k", "RegexNFState.epsilon_closure", "closure = the state itself, every epsilon successor, and (once per state) the closure of each successor",
+              "the epsilon closure no longer collects the state, all its epsilon successors and their closures")
+
+
+_run_j07 = run
+
+
+def run(ctx, rep, tier):
+    _run_j07(ctx, rep, tier)
+    _thompson_fragments(ctx, rep, tier)
